@@ -56,8 +56,8 @@ pub fn case(ctx: &mut Ctx, universe: &str, stmts: &[E]) {
     let ast = match pipeline::parse(&text) { Ok(a) => a, Err(_) => return };
     let prog = match pipeline::compile(&ast) { Ok(p) => p, Err(_) => { ctx.count("compile_rejected", 1); return } };
     let plain = pipeline::execute(&prog);
+    // the same log path for every case of this worker: logs of different lengths overwrite each other
     let logf = ctx.scratch.join("heap.csv");
-    let _ = std::fs::remove_file(&logf);
     let logged = pipeline::execute_cfg(&prog, Some(if ctx.index % 2 == 0 { 0 } else { 1 }), Some(logf.clone()));
     ctx.count("traces_validated_against_impl", 1);
     if plain != logged {
@@ -134,6 +134,8 @@ fn processes(ctx: &mut Ctx) {
     ctx.stage("flags as processes: run / execute x heap-log x heap-size");
     let exe = ctx.exe.clone();
     let programs = vec![
+        // more than 1 MiB of live arrays: a heap size of 1 MB must still be inert
+        "let keep = array(50, null); let i = 0; while i < 50 do begin keep[i] <- array(2000, i); i <- i + 1 end; print(\"kept ~ arrays, last cell ~\\n\", i, keep[49][1999])".to_string(),
         "print(\"hi\\n\")".to_string(),
         "let a = array(3, object begin let f = 1 end); print(\"~\\n\", a)".to_string(),
         "function mk(n) -> object extends n begin let v = array(n, n) end; let i = 0; while i < 5 do begin mk(i); i <- i + 1 end; print(\"done ~\\n\", i)".to_string(),
@@ -160,7 +162,8 @@ fn processes(ctx: &mut Ctx) {
                 for size in [None, Some("0"), Some("1"), Some("4096")] {
                     n += 1;
                     let mut args: Vec<String> = vec![action.to_string(), input.to_str().unwrap().to_string()];
-                    let logpath = log.map(|l| ctx.scratch.join(format!("c{}", n)).join(l));
+                    // every second configuration reuses one path, so that a short log follows a long one
+                    let logpath = log.map(|l| ctx.scratch.join(if n % 2 == 0 { "shared".to_string() } else { format!("c{}", n) }).join(l));
                     if let Some(lp) = &logpath { args.push("--heap-log".into()); args.push(lp.to_str().unwrap().to_string()) }
                     if let Some(sz) = size { args.push("--heap-size".into()); args.push(sz.to_string()) }
                     let a: Vec<&str> = args.iter().map(|s| s.as_str()).collect();
